@@ -48,6 +48,11 @@ class C19(Spec):
             v6.append(":".join(groups))
         good_ports = [0, 1, 79, 80, 81, 1023, 1024, 65534, 65535] + [rng.randrange(65536) for _ in range(6)]
         bad_ports = ["", "abc", "-1", "65536", "99999", "9999999999999999999999", "80a", "8 0", "+80", " 80", "-0", "080", "0x50", "80 ", "\t80", "８０", "1e3"]
+        # numbers whose low 16/32/64 bits are a valid port: a narrowing conversion before the range check accepts them
+        wrap_ports = ["65616", "131152", "4294967296", "4294967376", "4295032831", "8589934672", "-4294967216", "-4294967296",
+                      "18446744073709551616", "18446744073709551696", "-18446744073709551536", "2147483728", "-2147483568",
+                      "9223372036854775807", "-9223372036854775808", "9223372036854775888"]
+        bad_ports = bad_ports + wrap_ports
         for h in quads + ["*", "localhost"]:
             fam_host = {"*": "0.0.0.0", "localhost": "127.0.0.1"}.get(h, h)
             self.add(cases, h, "-", (4, fam_host, 80))
@@ -55,6 +60,13 @@ class C19(Spec):
                 self.add(cases, "%s:%d" % (h, p), "-", (4, fam_host, p))
             bp = rng.choice(bad_ports)
             self.add(cases, "%s:%s" % (h, bp), "-", None)
+        for h in ["127.0.0.1", "*", "localhost"]:
+            for bp in wrap_ports:
+                self.add(cases, "%s:%s" % (h, bp), "-", "reject")
+        for h in ["::1", "2001:db8::1"]:
+            c = canon6(h)
+            for bp in wrap_ports:
+                self.add(cases, "[%s]:%s" % (h, bp), pv.hexs(c), "reject")
         for h in v6:
             c = canon6(h)
             cs = pv.hexs(c) if c else "-"
@@ -85,6 +97,10 @@ class C19(Spec):
         if t[0] == "A" and t[1] == "err-other":
             return "malformed text rejected with something other than invalid_argument: %s" % pv.unhex(case.split()[1])
         exp = self.expect.get(case)
+        if exp == "reject":
+            if t[0] == "A" and t[1] == "ok":
+                return "a port outside 0..65535 was accepted: %s taken as port %s" % (pv.unhex(case.split()[1]), t[4])
+            return None
         if exp is None or exp == "err":
             if t[0] == "A" and t[1] == "ok" and t[6] != "same":
                 return "accepted address does not print to an equivalent text: %s -> %s" % (pv.unhex(case.split()[1]), pv.unhex(t[5]))
